@@ -29,3 +29,24 @@ package surveyor
 //@ func (*survey).start
 //@   holds s.sock.Mutex
 //@   private
+//@
+//@ func (*pipe).receiver
+//@   ghost body0 = result.Body at call:RecvMsg#1
+//@   at call:Free#1 assert len(body0) < 4
+//@   before select#1 assert held(s.Mutex) && len(body0) >= 4 && id == be32(body0) && has(s.surveys, id) && surv == s.surveys[id]
+//@
+//@ func (*survey).cancel$1
+//@   before call:close#1 assert !has(sock.surveys, s.id)
+//@
+//@ func (*survey).start
+//@   at call:AfterFunc#1 assert expire > 0 && timer_d(result) == expire
+//@
+//@ func (*context).SendMsg
+//@   loop 1 complete
+//@   loop 2 complete
+//@   at call:PutUint32#1 assert newsurv.id >= 2147483648 && len(m.Header) == 4 && be32(m.Header) == newsurv.id
+//@   before call:start#1 assert held(s.Mutex) && newsurv.ctx == c && newsurv.sock == s
+//@
+//@ func (*context).RecvMsg
+//@   before return#2 assert surv == nil
+//@   before select#1 assert surv != nil
